@@ -18,6 +18,7 @@ package main
 
 import (
 	"bytes"
+	"context"
 	"crypto/sha1"
 	"encoding/json"
 	"fmt"
@@ -33,6 +34,7 @@ import (
 	"github.com/sourcegraph/zoekt"
 	"github.com/sourcegraph/zoekt/index"
 	"github.com/sourcegraph/zoekt/internal/zzfs"
+	"github.com/sourcegraph/zoekt/query"
 )
 
 // ---- abstract names
@@ -148,6 +150,7 @@ func c35SimpleBytes(t *testing.T, m c35Meta) []byte {
 		t.Fatal(err)
 	}
 	b.AddFile("f.txt", []byte(fmt.Sprintf("hello r%d", m.id)))
+	b.AddFile("g.txt", []byte(fmt.Sprintf("bye r%d", m.id))) // >= 2 documents per repository: per-repository loops see a "same repo again" step
 	if err := b.Finish(); err != nil {
 		t.Fatal(err)
 	}
@@ -367,6 +370,40 @@ type c35Obs struct {
 	ok      bool
 	metas   []c35Meta
 	readErr string
+	foreign []string // simple shards: documents that are not this repository's own ("file of repo: content")
+}
+
+// c35ForeignDocs lists the documents of the simple shard of repository id that do not belong to it (every repository's
+// documents are "hello r<id>" / "bye r<id>"); the sidecar is ignored (the shard itself is searched).
+func c35ForeignDocs(p string, id int) []string {
+	f, err := os.Open(p)
+	if err != nil {
+		return nil
+	}
+	inf, err := index.NewIndexFile(f)
+	if err != nil {
+		f.Close()
+		return nil
+	}
+	s, err := index.NewSearcher(inf)
+	if err != nil {
+		inf.Close()
+		return nil
+	}
+	defer s.Close()
+	res, err := s.Search(context.Background(), &query.Const{Value: true}, &zoekt.SearchOptions{Whole: true})
+	if err != nil {
+		return nil
+	}
+	var out []string
+	for _, fm := range res.Files {
+		c := string(fm.Content)
+		if c != fmt.Sprintf("hello r%d", id) && c != fmt.Sprintf("bye r%d", id) {
+			out = append(out, fmt.Sprintf("%s of %s: %q", fm.FileName, fm.Repository, c))
+		}
+	}
+	sort.Strings(out)
+	return out
 }
 
 func c35ParseRepo(name string) int {
@@ -417,6 +454,9 @@ func c35Observe(t *testing.T, dir string, in *c35Init) []c35Obs {
 				o.ok = true
 				for _, r := range rs {
 					o.metas = append(o.metas, c35Meta{int(r.ID), int(r.GetPriority()), r.Tombstone})
+				}
+				if z.kind == 0 && o.k1 == 1 {
+					o.foreign = c35ForeignDocs(filepath.Join(dir, fn), z.id)
 				}
 			} else {
 				o.readErr = err.Error()
@@ -795,6 +835,13 @@ func c35Emit(t *testing.T, sc *c35Scenario, fault, kill *c35Fault, r *c35Run, in
 			}
 			if bad != "" {
 				vfOracleFail("explode-success-untruthful:"+cause, bad, replay)
+			}
+			// "back in its own shard" also means: with its own documents only (a tombstoned member's documents must not end
+			// up in a neighbour's shard)
+			for _, o := range r.obs {
+				if len(o.foreign) > 0 {
+					vfOracleFail("explode-success-untruthful:foreign-documents:"+cause, fmt.Sprintf("after a successful explode the simple shard %s contains documents of another repository: %v", o.z.file(), o.foreign), replay)
+				}
 			}
 		}
 	}
